@@ -476,4 +476,324 @@ Qed.
 Theorem simplify_transitive_equality_ok : rewrite_ok simplify_transitive_equality.
 Proof. apply total_ok. exact simplify_transitive_equality_opt_ok. Qed.
 
+
+(* ---------------------------------------------------------------- restrict_quantifier_domain *)
+Lemma choose_fresh_one_fresh vars variant fvar rest :
+  choose_fresh_variable_names vars variant 1 = fvar :: rest -> ~ In fvar (map vname vars).
+Proof.
+  unfold choose_fresh_variable_names.
+  destruct (memb_spec string_dec variant (map vname vars)) as [Hin|Hnin].
+  - cbn [seq map cfvn_loop List.length]. rewrite Nat.add_0_r.
+    destruct (find_fresh_by _ variant _ (N.of_nat 1)) as [[c m]|] eqn:E; [|discriminate].
+    cbn [app]. intros [= <- <-].
+    apply find_fresh_by_sound in E. destruct E as [E _].
+    apply orb_false_iff in E. destruct E as [E _].
+    destruct (memb_spec string_dec c (map vname vars)); [discriminate|assumption].
+  - cbn. intros [= <- <-]. exact Hnin.
+Qed.
+
+Definition cand1 (ivar ovar : var) : comparison := (GVar (vname ovar), [mkguard REq (GInt (IVar (vname ivar)))]).
+Definition cand2 (ivar ovar : var) : comparison := (GInt (IVar (vname ivar)), [mkguard REq (GVar (vname ovar))]).
+
+Lemma replacement_helper_true ivar ovar comp F G :
+  replacement_helper ivar ovar comp F = Some (G, true) ->
+  (comp = cand1 ivar ovar \/ comp = cand2 ivar ovar) /\
+  exists q vars f fvar f',
+    F = FQ q vars f /\ ~ In fvar (map vname (variables F)) /\
+    substitute f ovar (GInt (IVar fvar)) = Some f' /\
+    G = FQ q (filter (fun x => negb (var_eqb x ovar)) vars ++ [mkvar fvar SInteger]) f'.
+Proof.
+  unfold replacement_helper. fold (cand1 ivar ovar). fold (cand2 ivar ovar).
+  match goal with |- (if ?c then _ else _) = _ -> _ => destruct c eqn:R end; [|intros [= _ ?]; discriminate].
+  assert (Hc : comp = cand1 ivar ovar \/ comp = cand2 ivar ovar).
+  { destruct (cmp_eqb_spec comp (cand1 ivar ovar)); [left; assumption|].
+    destruct (cmp_eqb_spec comp (cand2 ivar ovar)); [right; assumption|discriminate]. }
+  destruct (first_char (vname ivar)) as [variant|]; [|discriminate].
+  destruct (choose_fresh_variable_names (variables F) variant 1) as [|fvar rest] eqn:CF; [discriminate|].
+  apply choose_fresh_one_fresh in CF.
+  destruct F as [a|g|c l r|q vars f]; try discriminate.
+  destruct (substitute f ovar (GInt (IVar fvar))) as [f'|] eqn:Sub; [|discriminate].
+  intros [= <-]. split; [exact Hc|]. exists q, vars, f, fvar, f'. auto.
+Qed.
+
+Definition rqd_hit (F : formula) (outer inner : list var) (cond : var -> var -> bool)
+           (comps : list formula) (G : formula) : Prop :=
+  exists ivar ovar comp,
+    In ovar outer /\ In ivar inner /\ cond ovar ivar = true /\
+    In (cmp_formula comp) comps /\ equality_comparison comp = Some true /\
+    replacement_helper ivar ovar comp F = Some (G, true).
+
+Section Loops.
+Variables (F : formula) (outer inner : list var) (cond : var -> var -> bool) (comps : list formula).
+Variable P : lstate -> Prop.
+Hypothesis HP : forall G, rqd_hit F outer inner cond comps G -> P (G, true).
+
+Lemma rqd_ivar_body_inv tb ovar comp s ivar s1 b :
+  In ovar outer -> In ivar inner -> In (cmp_formula comp) comps -> equality_comparison comp = Some true ->
+  P s -> rqd_ivar_body cond tb ovar comp F s ivar = Some (s1, b) -> P s1.
+Proof.
+  intros Ho Hi Hc He Ps. unfold rqd_ivar_body.
+  destruct (cond ovar ivar) eqn:C; [|intros [= <- <-]; exact Ps].
+  destruct (replacement_helper ivar ovar comp F) as [[G [|]]|] eqn:R; try discriminate.
+  - intros [= <- <-]. apply HP. exists ivar, ovar, comp. auto 10.
+  - intros [= <- <-]. exact Ps.
+Qed.
+
+Lemma rqd_ovar_body_inv is_ex comp s ovar s1 b :
+  In ovar outer -> In (cmp_formula comp) comps -> equality_comparison comp = Some true ->
+  P s -> rqd_ovar_body cond is_ex inner comp F s ovar = Some (s1, b) -> P s1.
+Proof.
+  intros Ho Hc He Ps. unfold rqd_ovar_body.
+  match goal with |- match ?x with _ => _ end = _ -> _ => destruct x as [s'|] eqn:L end; [|discriminate].
+  intros [= <- <-]. revert L. apply (for_break_inv P); [|exact Ps].
+  intros s0 x s2 b0 Hx P0. apply rqd_ivar_body_inv; auto.
+Qed.
+
+Lemma rqd_comp_body_inv is_ex s ict s1 b :
+  In ict comps -> P s -> rqd_comp_body cond is_ex outer inner F s ict = Some (s1, b) -> P s1.
+Proof.
+  intros Hc Ps. unfold rqd_comp_body.
+  destruct ict as [[| |p ts|t gs]|g|c l r|q vs g]; try (intros [= <- <-]; exact Ps).
+  destruct (equality_comparison (t, gs)) as [[|]|] eqn:E; try discriminate; [|intros [= <- <-]; exact Ps].
+  match goal with |- match ?x with _ => _ end = _ -> _ => destruct x as [s'|] eqn:L end; [|discriminate].
+  intros [= <- <-]. revert L. apply (for_break_inv P); [|exact Ps].
+  intros s0 x s2 b0 Hx P0. apply (rqd_ovar_body_inv is_ex (t, gs)); auto.
+Qed.
+End Loops.
+
+Definition cond_ex (inner_vars : list var) (ovar ivar : var) : bool :=
+  sort_eqb (vsort ovar) SGeneral && sort_eqb (vsort ivar) SInteger && negb (memb var_dec ovar inner_vars).
+Definition cond_all (inner_vars : list var) (rhs : formula) (ovar ivar : var) : bool :=
+  sort_eqb (vsort ovar) SGeneral && sort_eqb (vsort ivar) SInteger && negb (memb var_dec ovar inner_vars)
+  && negb (memb var_dec ovar (free_variables rhs)).
+
+Lemma cond_ex_true inner ovar ivar :
+  cond_ex inner ovar ivar = true -> vsort ovar = SGeneral /\ vsort ivar = SInteger /\ ~ In ovar inner.
+Proof.
+  unfold cond_ex. rewrite !andb_true_iff. intros [[H1 H2] H3].
+  destruct (sort_eqb_spec (vsort ovar) SGeneral); [|discriminate].
+  destruct (sort_eqb_spec (vsort ivar) SInteger); [|discriminate].
+  destruct (memb_spec var_dec ovar inner); [discriminate|]. auto.
+Qed.
+Lemma cond_all_true inner rhs ovar ivar :
+  cond_all inner rhs ovar ivar = true -> cond_ex inner ovar ivar = true.
+Proof. unfold cond_all, cond_ex. rewrite !andb_true_iff. tauto. Qed.
+
+(* the exists-case outer loop: some existential conjunct was hit *)
+Definition rqd_hit_ex (F : formula) (outer : list var) (cts : list formula) (G : formula) : Prop :=
+  exists inner inner_formula,
+    In (FQ QExists inner inner_formula) cts /\
+    rqd_hit F outer inner (cond_ex inner) (conjoin_invert inner_formula) G.
+
+Lemma rqd_ct_body_inv F outer cts s ct s1 b :
+  In ct cts ->
+  (fst s = F \/ rqd_hit_ex F outer cts (fst s)) ->
+  rqd_ct_body outer F s ct = Some (s1, b) ->
+  fst s1 = F \/ rqd_hit_ex F outer cts (fst s1).
+Proof.
+  intros Hc Ps. unfold rqd_ct_body.
+  destruct ct as [a|g|c l r|q inner inner_formula]; try (intros [= <- <-]; exact Ps).
+  destruct q; try (intros [= <- <-]; exact Ps).
+  fold (cond_ex inner).
+  match goal with |- match ?x with _ => _ end = _ -> _ => destruct x as [s'|] eqn:L end; [|discriminate].
+  intros [= <- <-]. revert L.
+  apply (for_break_inv (fun s => fst s = F \/ rqd_hit_ex F outer cts (fst s))); [|exact Ps].
+  intros s0 x s2 b0 Hx P0.
+  apply (rqd_comp_body_inv F outer inner (cond_ex inner) (conjoin_invert inner_formula)
+           (fun s => fst s = F \/ rqd_hit_ex F outer cts (fst s))); auto.
+  intros G HG. right. cbn [fst]. exists inner, inner_formula. auto.
+Qed.
+
+(* semantic core: exists/forall Z$g over a body that forces Z to be an integer (or is vacuous
+   otherwise) = exists/forall K$i over the body with Z replaced by K, K fresh *)
+Section Restrict.
+Variables (FI : fint) (I : pint).
+Variables (outer : list var) (B B' : formula) (ovar : var) (fvar : string).
+Let K := mkvar fvar SInteger.
+Let vs' := filter (fun x => negb (var_eqb x ovar)) outer ++ [K].
+Hypothesis Hg : vsort ovar = SGeneral.
+Hypothesis Ho : In ovar outer.
+Hypothesis HK : ~ In K (free_variables B).
+Hypothesis Hsub : substitute B ovar (GInt (IVar fvar)) = Some B'.
+
+Lemma ovar_ne_K : ovar <> K.
+Proof. intros E. rewrite E in Hg. discriminate. Qed.
+
+Lemma in_vs' w : In w vs' <-> (In w outer /\ w <> ovar) \/ w = K.
+Proof.
+  unfold vs'. rewrite in_app_iff, filter_In. cbn [In].
+  destruct (var_eqb_spec w ovar); cbn [negb]; split; intros H; intuition congruence.
+Qed.
+
+Lemma sub_sem e2 : csat FI I e2 B' <-> csat FI I (upd e2 ovar (getv e2 K)) B.
+Proof.
+  assert (Hok : sort_ok ovar (GInt (IVar fvar)) = true) by (unfold sort_ok; rewrite Hg; reflexivity).
+  rewrite (subst_sem _ _ _ _ Hok Hsub). reflexivity.
+Qed.
+
+Lemma transfer_1 e e2 : outside vs' e e2 ->
+  exists e1, outside outer e e1 /\ (csat FI I e1 B <-> csat FI I e2 B').
+Proof.
+  intros O2. exists (upd (upd e2 ovar (getv e2 K)) K (getv e K)). split.
+  - intros w Nw. destruct (var_dec K w) as [<-|NK].
+    + symmetry. apply getv_upd_same, in_sort_getv.
+    + rewrite getv_upd_other by exact NK.
+      assert (Nw' : ovar <> w) by (intros <-; apply Nw, Ho).
+      rewrite getv_upd_other by exact Nw'. apply O2. rewrite in_vs'. intros [[H _]|H]; [auto|congruence].
+  - rewrite sub_sem. apply csat_upd_notfree, HK.
+Qed.
+
+Lemma transfer_2 e e1 n : outside outer e e1 -> getv e1 ovar = VNum n ->
+  exists e2, outside vs' e e2 /\ (csat FI I e1 B <-> csat FI I e2 B').
+Proof.
+  intros O1 Hn. set (e2 := upd (upd e1 ovar (getv e ovar)) K (VNum n)). exists e2. split.
+  - intros w Nw. rewrite in_vs' in Nw.
+    assert (NK : K <> w) by (intros <-; apply Nw; right; reflexivity).
+    unfold e2. rewrite getv_upd_other by exact NK.
+    destruct (var_dec ovar w) as [<-|No].
+    + symmetry. apply getv_upd_same, in_sort_getv.
+    + rewrite getv_upd_other by exact No. apply O1. intros Hin. apply Nw. left. split; [exact Hin|congruence].
+  - rewrite sub_sem.
+    assert (EK : getv e2 K = VNum n) by (unfold e2; apply getv_upd_same; exact Logic.I).
+    rewrite EK. symmetry. apply coincidence. intros w Hw.
+    assert (NK : K <> w) by (intros <-; exact (HK Hw)).
+    destruct (var_dec ovar w) as [<-|No].
+    + rewrite getv_upd_same; [symmetry; exact Hn|]. rewrite Hg. exact Logic.I.
+    + rewrite getv_upd_other by exact No. unfold e2.
+      rewrite getv_upd_other by exact NK. rewrite getv_upd_other by exact No. reflexivity.
+Qed.
+
+Lemma restrict_exists e :
+  (forall e1, csat FI I e1 B -> exists n, getv e1 ovar = VNum n) ->
+  qsat QExists vs' (fun e' => csat FI I e' B') e <-> qsat QExists outer (fun e' => csat FI I e' B) e.
+Proof.
+  intros Hint. rewrite !qsat_exists_char by apply csat_ext. split.
+  - intros [e2 [O2 H]]. destruct (transfer_1 e e2 O2) as [e1 [O1 E]]. exists e1. tauto.
+  - intros [e1 [O1 H]]. destruct (Hint e1 H) as [n Hn].
+    destruct (transfer_2 e e1 n O1 Hn) as [e2 [O2 E]]. exists e2. tauto.
+Qed.
+
+Lemma restrict_forall e :
+  (forall e1, (forall n, getv e1 ovar <> VNum n) -> csat FI I e1 B) ->
+  qsat QForall vs' (fun e' => csat FI I e' B') e <-> qsat QForall outer (fun e' => csat FI I e' B) e.
+Proof.
+  intros Hvac. rewrite !qsat_forall_char by apply csat_ext. split.
+  - intros H e1 O1. destruct (getv e1 ovar) as [|n|sy|] eqn:Ev;
+      try (apply Hvac; intros n'; rewrite Ev; discriminate).
+    destruct (transfer_2 e e1 n O1 Ev) as [e2 [O2 E]]. apply E, H, O2.
+  - intros H e2 O2. destruct (transfer_1 e e2 O2) as [e1 [O1 E]]. apply E, H, O1.
+Qed.
+
+Lemma restrict_fv q w :
+  In w (free_variables (FQ q vs' B')) -> In w (free_variables (FQ q outer B)).
+Proof.
+  assert (Hok : sort_ok ovar (GInt (IVar fvar)) = true) by (unfold sort_ok; rewrite Hg; reflexivity).
+  rewrite !in_fv_q. intros [Hw Nw]. rewrite in_vs' in Nw.
+  destruct (subst_fv _ _ _ _ _ Hok Hsub Hw) as [[Hw' Ne]|Hw'].
+  - split; [exact Hw'|]. intros Hin. apply Nw. left. auto.
+  - cbn in Hw'. destruct Hw' as [<-|[]]. exfalso. apply Nw. right. reflexivity.
+Qed.
+End Restrict.
+
+(* an equation I$i = Z$g (either orientation) among the conjuncts of an existential formula whose
+   block does not bind Z forces Z to be an integer *)
+Lemma inner_forces_integer FI I e' inner inner_formula comp ivar ovar :
+  vsort ovar = SGeneral -> ~ In ovar inner ->
+  In (cmp_formula comp) (conjoin_invert inner_formula) ->
+  (comp = cand1 ivar ovar \/ comp = cand2 ivar ovar) ->
+  csat FI I e' (FQ QExists inner inner_formula) -> exists n, getv e' ovar = VNum n.
+Proof.
+  intros Hg Hni Hin Hc H. cbn [csat] in H. rewrite qsat_exists_char in H by apply csat_ext.
+  destruct H as [e'' [Ho H]]. apply csat_conjoin_invert in H. rewrite Forall_forall in H.
+  specialize (H _ Hin). rewrite (Ho ovar Hni).
+  assert (Eg : getv e'' ovar = eg e'' (vname ovar)) by (unfold getv; rewrite Hg; reflexivity).
+  rewrite Eg. exists (ei e'' (vname ivar)).
+  destruct Hc as [-> | ->]; unfold cand1, cand2 in H; apply csat_eq_cmp in H; cbn in H; congruence.
+Qed.
+
+Lemma rqd_hit_fresh F q vars f fvar : F = FQ q vars f ->
+  ~ In fvar (map vname (variables F)) -> ~ In (mkvar fvar SInteger) (free_variables f).
+Proof.
+  intros -> Hn Hin. apply Hn. cbn [variables]. apply fv_sub_variables in Hin.
+  apply (in_map vname) in Hin. exact Hin.
+Qed.
+
+Lemma restrict_quantifier_domain_opt_ok F G :
+  restrict_quantifier_domain_opt F = Some G -> cequiv F G /\ fv_incl F G.
+Proof.
+  destruct F as [a|g|c l r|q outer body]; cbn [restrict_quantifier_domain_opt];
+    try (intros [= <-]; split; [apply cequiv_refl|apply fv_incl_refl]).
+  destruct q.
+  - (* forall Z.. (exists I.. (..) -> rhs) *)
+    destruct body as [a|g|c lhs rhs|q' vs' g]; try (intros [= <-]; split; [apply cequiv_refl|apply fv_incl_refl]).
+    destruct c; try (intros [= <-]; split; [apply cequiv_refl|apply fv_incl_refl]).
+    destruct lhs as [a|g|c l r|q' inner inner_formula];
+      try (intros [= <-]; split; [apply cequiv_refl|apply fv_incl_refl]).
+    destruct q'; try (intros [= <-]; split; [apply cequiv_refl|apply fv_incl_refl]).
+    set (B := FBin CImp (FQ QExists inner inner_formula) rhs). set (F := FQ QForall outer B).
+    fold (cond_all inner rhs).
+    match goal with |- option_map fst ?x = _ -> _ => destruct x as [s'|] eqn:L end; [|discriminate].
+    cbn [option_map]. intros [= <-].
+    assert (P : fst s' = F \/ rqd_hit F outer inner (cond_all inner rhs) (conjoin_invert inner_formula) (fst s')).
+    { revert L.
+      apply (for_break_inv (fun s => fst s = F \/
+               rqd_hit F outer inner (cond_all inner rhs) (conjoin_invert inner_formula) (fst s)));
+        [|left; reflexivity].
+      intros s0 x s2 b0 Hx P0.
+      apply (rqd_comp_body_inv F outer inner (cond_all inner rhs) (conjoin_invert inner_formula)
+               (fun s => fst s = F \/
+                  rqd_hit F outer inner (cond_all inner rhs) (conjoin_invert inner_formula) (fst s))
+               (fun G HG => or_intror HG) false s0 x s2 b0 Hx P0). }
+    destruct P as [->|[ivar [ovar [comp [Ho [Hi [Hc [Hin [He R]]]]]]]]];
+      [split; [apply cequiv_refl|apply fv_incl_refl]|].
+    apply cond_all_true, cond_ex_true in Hc. destruct Hc as [Hg [Hint Hni]].
+    apply replacement_helper_true in R.
+    destruct R as [Hcand [q0 [vars0 [f0 [fvar [f' [EF [Hfresh [Sub ->]]]]]]]]].
+    inversion EF; subst q0 vars0 f0. pose proof (rqd_hit_fresh _ _ _ _ _ EF Hfresh) as HK.
+    split.
+    + intros FI I e. cbn [csat].
+      apply (restrict_forall FI I outer B f' ovar fvar Hg Ho HK Sub e).
+      intros e1 Hn. unfold B. cbn [csat]. intros Hl. exfalso.
+      destruct (inner_forces_integer FI I e1 inner inner_formula comp ivar ovar Hg Hni Hin Hcand Hl) as [n En].
+      exact (Hn n En).
+    + intros w. apply (restrict_fv outer B f' ovar fvar Hg Sub).
+  - (* exists Z.. (.. and exists I.. (..) and ..) *)
+    destruct body as [a|g|c lhs rhs|q' vs' g]; try (intros [= <-]; split; [apply cequiv_refl|apply fv_incl_refl]).
+    destruct c; try (intros [= <-]; split; [apply cequiv_refl|apply fv_incl_refl]).
+    set (B := FBin CAnd lhs rhs). set (F := FQ QExists outer B).
+    set (cts := conjoin_invert lhs ++ conjoin_invert rhs).
+    match goal with |- option_map fst ?x = _ -> _ => destruct x as [s'|] eqn:L end; [|discriminate].
+    cbn [option_map]. intros [= <-].
+    assert (P : fst s' = F \/ rqd_hit_ex F outer cts (fst s')).
+    { revert L. apply (for_break_inv (fun s => fst s = F \/ rqd_hit_ex F outer cts (fst s))); [|left; reflexivity].
+      intros s0 x s2 b0 Hx P0. apply (rqd_ct_body_inv F outer cts s0 x s2 b0 Hx P0). }
+    destruct P as [->|[inner [inner_formula [Hct [ivar [ovar [comp [Ho [Hi [Hc [Hin [He R]]]]]]]]]]]];
+      [split; [apply cequiv_refl|apply fv_incl_refl]|].
+    apply cond_ex_true in Hc. destruct Hc as [Hg [Hint Hni]].
+    apply replacement_helper_true in R.
+    destruct R as [Hcand [q0 [vars0 [f0 [fvar [f' [EF [Hfresh [Sub ->]]]]]]]]].
+    inversion EF; subst q0 vars0 f0. pose proof (rqd_hit_fresh _ _ _ _ _ EF Hfresh) as HK.
+    split.
+    + intros FI I e. cbn [csat].
+      apply (restrict_exists FI I outer B f' ovar fvar Hg Ho HK Sub e).
+      intros e1 H1. apply csat_conjoin_invert in H1. rewrite Forall_forall in H1.
+      apply (inner_forces_integer FI I e1 inner inner_formula comp ivar ovar Hg Hni Hin Hcand).
+      apply H1. exact Hct.
+    + intros w. apply (restrict_fv outer B f' ovar fvar Hg Sub).
+Qed.
+
+Theorem restrict_quantifier_domain_ok : rewrite_ok restrict_quantifier_domain.
+Proof. apply total_ok. exact restrict_quantifier_domain_opt_ok. Qed.
+
+(* ------------------------------------------------------------------------------ the list *)
+Theorem CLASSIC_ok : forall r, In r CLASSIC -> rewrite_ok r.
+Proof.
+  intros r [<-|[<-|[<-|[<-|[<-|[]]]]]].
+  - exact remove_double_negation_ok.
+  - exact substitute_defined_variables_ok.
+  - exact restrict_quantifier_domain_ok.
+  - exact extend_quantifier_scope_ok.
+  - exact simplify_transitive_equality_ok.
+Qed.
+
 End WithSubst.
